@@ -248,7 +248,7 @@ def rule_strictness(ctx):
                            f"wmsg[{i}] ({name}) not validated as a str-keyed dict", fn.loc())
 
 
-def parse_on(ctx, m, c, wmsg, rule_tag="C08.3-strictness", typed_validators=False, trace=None):
+def parse_on(ctx, m, c, wmsg, rule_tag="C08.3-strictness", typed_validators=False, trace=None, inline_validators=False):
     """Abstract evaluation (sa.core.tiny) of `c.parse` on the raw message `wmsg`: (outcome, [constructor arguments by name]).
     typed_validators: the check_or_raise_* validators answer by their extension (decided separately by the C08.3 validator obligations):
     an id is a non-bool int in 0..2^53, a URI / realm a str (None where allowed), extra a dict; everything else is a ProtocolError."""
@@ -270,6 +270,11 @@ def parse_on(ctx, m, c, wmsg, rule_tag="C08.3-strictness", typed_validators=Fals
             env.setdefault(f"{c.name}.{s_.targets[0].id}", s_.value.value)
 
     def oracle(fname, args, kwargs=None):
+        if inline_validators and (fname.endswith(".match") or fname.endswith(".fullmatch")) and len(args) == 1:
+            # a compiled pattern applied to a value: TypeError for anything but text, else an opaque (truthy) match for the model's well-formed URIs
+            if not isinstance(args[0], str):
+                raise TinyRaise("TypeError")
+            return Sym("match")
         if fname.startswith("check_or_raise_") and trace is not None:
             vf_ = m.funcs.get(fname)
             tb_ = {}
@@ -296,7 +301,7 @@ def parse_on(ctx, m, c, wmsg, rule_tag="C08.3-strictness", typed_validators=Fals
             if not ok:
                 raise TinyRaise("ProtocolError")
             return v
-        if fname.startswith("check_or_raise_"):
+        if fname.startswith("check_or_raise_") and not inline_validators:
             return args[0]
         if fname.startswith("is_valid_"):
             return True
